@@ -348,7 +348,8 @@ pub struct SoftmaxCase {
 }
 
 pub fn softmax_values(r: usize, c: usize, f32: bool) -> BoxedStrategy<Mat> {
-    let big = if f32 { 80.0 } else { 700.0 };
+    // 'any finite input': magnitudes well beyond the point where exp() underflows (-745 in f64, -104 in f32)
+    let big = if f32 { 400.0 } else { 3000.0 };
     prop_oneof![
         2 => (unit_mat(r, c), pow2(-2, 4)).prop_map(|(m, s)| m.scale(s)),
         // all negative, large magnitude
@@ -359,6 +360,8 @@ pub fn softmax_values(r: usize, c: usize, f32: bool) -> BoxedStrategy<Mat> {
         1 => (unit_mat(r, c), unit_pos()).prop_map(move |(m, s)| m.scale(big * 0.5 * s)),
         1 => (unit(), Just(big)).prop_map(move |(x, s)| Mat::zeros(r, c).map(|_| x * s)),
         1 => int_mat(r, c, -30, 0),
+        // astronomically large magnitudes, all negative / all positive / mixed
+        1 => (unit_mat(r, c), -1i32..=1, pow10(4, 30)).prop_map(move |(m, sgn, s)| { let s = if f32 { s.min(1e30) } else { s * 1e200 }; m.map(|x| if sgn < 0 { -(x.abs() + 0.5) * s } else if sgn > 0 { (x.abs() + 0.5) * s } else { x * s }) }),
     ]
     .boxed()
 }
